@@ -21,9 +21,9 @@ const STUB: &[&str] = &[
     "input values and input types",
 ];
 
-fn sim_candidates(rec: &Record) -> Vec<Record> {
+fn sim_candidates(rec: &Record, coarse_only: bool) -> Vec<Record> {
     match rec {
-        Record::Sim(s) => crate::shrink::candidates(s).into_iter().map(Record::Sim).collect(),
+        Record::Sim(s) => crate::shrink::candidates_staged(s, coarse_only).into_iter().map(Record::Sim).collect(),
         Record::Builder(h) => crate::c15::candidates(h).into_iter().map(Record::Builder).collect(),
     }
 }
@@ -97,6 +97,8 @@ pub fn c09_def() -> PropDef {
             "hit.rule_failed_with.ValueOutOfBounds",
             "hit.rule_failed_with.DivisionByZero",
             "hit.rule_failed_with.InvalidSymbol",
+            "hit.ruleset_of_300_or_more_rules",
+            "hit.input_nested_deeper_than_128",
         ],
     }
 }
